@@ -1,7 +1,6 @@
 SPECIFICATION TraceSpec
 CONSTANTS
-  Hays <- NoStrings
-  Needles <- NoStrings
+  Pairs <- NoStrings
 INVARIANTS TraceTypeOK ReadsInBounds Refines
 CONSTRAINT Progress
 POSTCONDITION Accepted
